@@ -19,7 +19,7 @@ use vh_core::{NdjsonWriter, Rng, catch};
 
 #[path = "../soup_common.rs"]
 mod common;
-use common::{build_soup, ia, ifaces_of, path_id, self_consistent};
+use common::{backed_by_input, build_soup, ia, ifaces_of, path_id, self_consistent};
 
 /// a combine() call faster than this is never examined further
 const FAST_US: u64 = 100_000;
@@ -89,7 +89,12 @@ fn run_combine(src: u64, dst: u64, cores: &[UnsignedPathSegment], ncs: &[Unsigne
             let mut wrong = 0;
             for p in &paths {
                 let ifs = ifaces_of(p);
-                match catch(|| self_consistent(p)) {
+                let all_segs: Vec<&UnsignedPathSegment> = cores.iter().chain(ncs.iter()).collect();
+                match catch(|| {
+                    let mut b = self_consistent(p);
+                    b.extend(backed_by_input(p, &all_segs));
+                    b
+                }) {
                     Ok(b) if b.is_empty() => {}
                     Ok(b) => inc.push(json!({"path": path_id(&ifs), "bad": b})),
                     Err(pm) => inc.push(json!({"path": path_id(&ifs), "bad": [format!("panic-in-accessor:{pm}")]})),
@@ -420,7 +425,7 @@ fn replay(inp: &str, outp: &str) {
 // ------------------------------------------------------------------------------------ record: random segment soup
 
 /// random consistent topology: returns (segments as JSON descriptors, AS ids)
-fn random_topology(rng: &mut Rng) -> (Vec<Value>, Vec<u64>) {
+fn random_topology(rng: &mut Rng) -> (Vec<Value>, Vec<u64>, Vec<(u64, u64)>) {
     let ncore = rng.range(1, 3);
     let nleaf = rng.range(2, 9);
     let mut next_if: HashMap<u64, u64> = HashMap::new();
@@ -440,14 +445,22 @@ fn random_topology(rng: &mut Rng) -> (Vec<Value>, Vec<u64>) {
         parent.insert(a, (p, pif, cif));
         ases.push(a);
     }
-    // optional peering link between two non-core ASes
-    let mut peering: Option<(u64, u64, u64, u64)> = None;
+    // up to two peering links between non-core ASes; the second usually shares an AS with the first, so
+    // that this AS lists two peer entries
+    let mut peerings: Vec<(u64, u64, u64, u64)> = vec![];
     let noncore: Vec<u64> = ases.iter().copied().filter(|a| *a > ncore).collect();
-    if noncore.len() >= 2 && rng.chance(1, 2) {
+    if noncore.len() >= 2 && rng.chance(2, 3) {
         let a = *rng.pick(&noncore);
         let b = *rng.pick(&noncore);
         if a != b {
-            peering = Some((a, new_if(a), b, new_if(b)));
+            peerings.push((a, new_if(a), b, new_if(b)));
+            if noncore.len() >= 3 && rng.chance(2, 3) {
+                let a2 = if rng.chance(2, 3) { a } else { *rng.pick(&noncore) };
+                let c = *rng.pick(&noncore);
+                if c != a2 && !(a2 == a && c == b) && !(a2 == b && c == a) {
+                    peerings.push((a2, new_if(a2), c, new_if(c)));
+                }
+            }
         }
     }
     let mut segs = vec![];
@@ -465,7 +478,7 @@ fn random_topology(rng: &mut Rng) -> (Vec<Value>, Vec<u64>) {
             let inn = if i == 0 { 0 } else { parent[x].2 };
             let eg = if i + 1 < chain.len() { parent[&chain[i + 1]].1 } else { 0 };
             let mut peers = vec![];
-            if let Some((pa, paif, pb, pbif)) = peering {
+            for (pa, paif, pb, pbif) in peerings.iter().copied() {
                 if *x == pa {
                     peers.push(json!({"pas": pb, "pif": pbif, "lif": paif}));
                 }
@@ -505,14 +518,15 @@ fn random_topology(rng: &mut Rng) -> (Vec<Value>, Vec<u64>) {
             segs.push(mk(&[3, 2, 1]));
         }
     }
-    (segs, ases)
+    let peer_pairs = peerings.iter().map(|p| (p.0, p.2)).collect();
+    (segs, ases, peer_pairs)
 }
 
 fn mutate(rng: &mut Rng, seg: &mut Value, ases: &[u64]) -> &'static str {
     let n = seg["es"].as_array().unwrap().len();
     seg["good"] = json!(false);
     let es = seg["es"].as_array_mut().unwrap();
-    let ops = ["DeleteEntry", "DupEntry", "SwapEntries", "ZeroIf", "ZeroAll", "AliasIf", "CrossWirePeer", "Oversize", "SingleAs", "Empty", "OutOfRangeMtu", "FlipKind", "RandomIf"];
+    let ops = ["DeleteEntry", "DupEntry", "SwapEntries", "ZeroIf", "ZeroAll", "AliasIf", "CrossWirePeer", "FrontBrokenPeer", "FrontBrokenPeer", "Oversize", "SingleAs", "Empty", "OutOfRangeMtu", "FlipKind", "RandomIf"];
     let op = *rng.pick(&ops);
     if n == 0 {
         return "Empty";
@@ -559,6 +573,21 @@ fn mutate(rng: &mut Rng, seg: &mut Value, ases: &[u64]) -> &'static str {
             } else {
                 es[i]["peers"].as_array_mut().unwrap().push(json!({"pas": a, "pif": rng.range(0, 99), "lif": rng.range(0, 99)}));
             }
+        }
+        "FrontBrokenPeer" => {
+            // a broken peer entry in front of the valid ones, on an entry that has peers if there is one
+            let i = (0..n).find(|k| !es[*k]["peers"].as_array().unwrap().is_empty()).unwrap_or(i);
+            let a = *rng.pick(ases);
+            let ps = es[i]["peers"].as_array_mut().unwrap();
+            let broken = match (rng.below(3), ps.last().cloned()) {
+                (0, _) => json!({"pas": a, "pif": rng.range(1, 99), "lif": 0}),
+                (1, _) | (_, None) => json!({"pas": a, "pif": 0, "lif": rng.range(1, 99)}),
+                (_, Some(mut last)) => {
+                    last["pif"] = json!(0);
+                    last
+                }
+            };
+            ps.insert(0, broken);
         }
         "Oversize" => {
             let l = *rng.pick(&[63usize, 64, 70, 90]);
@@ -622,7 +651,7 @@ fn record(events: &str, results: &str) {
         if rec_deaths >= 5 {
             break;
         }
-        let (mut segs, ases) = random_topology(&mut rng);
+        let (mut segs, ases, peer_pairs) = random_topology(&mut rng);
         let mut ops: Vec<&'static str> = vec![];
         let mut fixed_pairs: Option<Vec<Value>> = None;
         if run == 1 {
@@ -695,6 +724,10 @@ fn record(events: &str, results: &str) {
             let s = *rng.pick(&ases);
             let d = *rng.pick(&ases);
             pairs.push(json!([s, d]));
+        }
+        // pairs routed over the peering links (the last one listed comes first)
+        for (k, (a, b)) in peer_pairs.iter().rev().enumerate().take(2) {
+            pairs[k] = if rng.chance(1, 2) { json!([a, b]) } else { json!([b, a]) };
         }
         if let Some(fp) = fixed_pairs {
             pairs = fp;
